@@ -4,6 +4,8 @@ import Esp.Lemmas.ReconnectStop
 import Esp.Lemmas.ReconnectTries
 import Esp.Lemmas.ReconnectCli
 import Esp.Lemmas.ReconnectAlt
+import Esp.Lemmas.ReconnectErr
+import Esp.Lemmas.ReconnectAlt2
 import Esp.Gen.Consts
 /-!
 # C18 — reconnect manager: one attempt at a time, specified backoff, clean stop
@@ -58,11 +60,12 @@ theorem backoff_le (n : Nat) : backoff n ≤ 60 := by rw [c18_backoff]; omega
 theorem c18_backoff_auth : backoff maxTries = 60 := by decide
 
 /-- the model's constants are the library's (translator-generated on every run from `reconnect_logic.py`: the two
-module constants, and the numeric literals / operators of the backoff expression by `ast`) -/
+module constants, and the retry-delay expression handed to `_schedule_connect`, obtained by symbolic evaluation of the
+function's AST — local assignments, named constants and helper functions inlined, floats as exact rationals): the
+expression `backoff` (`c18_backoff`, `c18_float_base`, `c18_float_margin`) is about -/
 theorem c18_consts :
     Gen.expectedDisconnectCooldown = (((cooldown : Nat) : Int), 1) ∧ Gen.maximumBackoffTries = (((maxTries : Nat) : Int), 1) ∧
-    Gen.backoffLiterals = [(10, 1), (1, 1), (60, 1), (8106479329266893, 4503599627370496)] ∧
-    Gen.backoffOps = ["Pow", "int", "min", "round"] := by decide
+    Gen.backoffExpr = "int(round(min(pow(8106479329266893/4503599627370496,min(tries,10/1)),60/1)))" := by decide
 
 /-- the base the code uses is the binary64 number nearest to 1.8, not 9/5: its powers up to the exponent cap stay within
 a relative 2⁻⁴⁸ of those of 9/5 … -/
@@ -301,6 +304,68 @@ theorem c18_alternate_witness :
 theorem c18_alternate_witness' :
     altState (run (init true) [.callStart, .pop, .startDone .ok, .pop, .finishDone .ok, .pop, .callStop, .callStart,
       .sessionEnd false, .pop, .startDone .ok, .pop, .finishDone .ok, .pop, .pop]).log = none := by
+  decide
+
+/-! ## a reported failure is counted -/
+
+/-- **C18 (every reported failure is counted, unless `stop()` intervenes).**  Take any reachable state in which a task is
+suspended inside `on_connect_error` for a failure of kind `k` and has not been cancelled, and ANY continuation that
+contains no `stop()` call — mDNS records, timers, `start()` calls, session ends, ready handles in any order.  Then either
+the failure is still being reported (the same task, still uncancelled) and no connection attempt has been started in the
+meantime, or the failure has been counted (`fail_counted k`, which arms the retry timer `backoff n` ahead,
+`c18_retry_delay`) before any further attempt.  In particular an mDNS record or a leftover timer never abandons the
+failure being reported to start a fresh attempt. -/
+theorem c18_failure_counted (named sc se sd : Bool) (evs rest : List Ev) (hns : Ev.callStop ∉ rest)
+    (tid : Nat) (t : Task) (k : ErrK) :
+    let s := run (init named sc se sd) evs
+    s.tasks[tid]? = some t → t.pc = .inOnError k → t.mustCancel = false →
+      (∃ l t', (run s rest).log = s.log ++ l ∧ Act.attempt ∉ l ∧
+        (run s rest).tasks[tid]? = some t' ∧ t'.pc = .inOnError k ∧ t'.mustCancel = false) ∨
+      (∃ l1 l2, (run s rest).log = s.log ++ l1 ++ Act.failCounted k :: l2 ∧ Act.attempt ∉ l1) := by
+  intro s ht hpc hmc
+  have hl : LockInv s := run_inv _ evs (init_inv named sc se sd)
+  have he : ErrOk s := run_err _ evs (init_inv named sc se sd) (init_err named sc se sd)
+  rcases run_counts rest hns tid k s t hl he ht hpc hmc with hk | h
+  · left
+    obtain ⟨t', ht', hp', hm'⟩ := hk.t t ht
+    obtain ⟨l, hlog, hn⟩ := hk.l
+    exact ⟨l, t', hlog, hn, ht', hp'.trans hpc, hm'.trans hmc⟩
+  · exact .inr h
+
+/-- the premises are met: the second failure is being reported while the mDNS listener of the first is still registered;
+a matching record, a timer and a `start()` later the failure is still being reported and nothing was attempted; when the
+callback returns it is counted -/
+example :
+    let s := run (init true false true false) [.callStart, .pop, .startDone (.fail .other), .pop, .cbDone, .pop, .timerDue, .pop,
+      .pop, .startDone (.fail .other), .pop]
+    (∃ t, s.tasks[2]? = some t ∧ t.pc = .inOnError .other ∧ t.mustCancel = false) ∧ s.zcListening = true ∧
+    (run s [.zc true, .pop, .callStart, .pop]).log = s.log ++ [.zcRemove] ∧
+    (run s [.zc true, .pop, .cbDone, .pop]).log = s.log ++ [.zcRemove, .failCounted .other, .zcAdd, .arm 3] := by decide
+
+/-! ## alternation with `stop()` -/
+
+/-- **C18 (alternation): EVERY history — `stop()` calls included — unless the manager is restarted over a session it has
+forgotten.**  `badRB s`: the manager is running (not stopped) and believes it is DISCONNECTED although a session is live or
+the end of one has not been reported yet; the only way into that state is `stop()` followed by `start()` while the session is
+still up (`c18_alternate_witness`, the known finding).  For every sequence of events all of whose prefixes avoid that
+state, `on_connect` and `on_disconnect` alternate, starting with `on_connect`.  So the known finding is the ONLY way the
+alternation clause can fail. -/
+theorem c18_alternate_unless_restarted (named sc se sd : Bool) (evs : List Ev)
+    (h : ∀ k, k ≤ evs.length → badRB (run (init named sc se sd) (evs.take k)) = false) :
+    altState (run (init named sc se sd) evs).log ≠ none :=
+  alternates_unless_restarted evs _ (init_inv named sc se sd) (init_mc named sc se sd) (init_cli named sc se sd)
+    (init_alt2 named sc se sd) (fun k hk hb => by have := h k hk; rw [badRB_of_BadR _ hb] at this; cases this)
+
+/-- the premise is met by histories with `stop()`: stopped during a live session, the session ends, started again, a second
+session — no prefix is in the bad state, and the callbacks read connect, disconnect, connect -/
+example :
+    let evs : List Ev := [.callStart, .pop, .startDone .ok, .pop, .finishDone .ok, .pop, .callStop, .sessionEnd false, .callStart,
+      .pop, .startDone .ok, .pop, .finishDone .ok, .pop]
+    (∀ k, k ≤ evs.length → badRB (run (init true) (evs.take k)) = false) ∧
+    cbs (run (init true) evs) = [.onConnect, .onDisconnect false, .onConnect] := by decide
+
+/-- … and the witness of the known finding passes through the bad state (right after its `start()`) -/
+example : badRB (run (init true) [.callStart, .pop, .startDone .ok, .pop, .finishDone .ok, .pop, .callStop, .callStart]) = true := by
   decide
 
 end Esp.C18
